@@ -28,7 +28,7 @@ func inPlaceMath(o *types.Func) bool {
 }
 
 func checkNoMut(w *World, r *Report, tm *Terms, rule string) {
-	r.Rule(rule, "no in-place math mutator is applied to a number that belongs to a record or a caller", 20)
+	r.Rule(rule, "no in-place math mutator is applied to a number that belongs to a record or a caller", 10)
 	type agg struct {
 		where string
 		n     int
